@@ -337,6 +337,26 @@ func streamRoundTrip(c streamCase, prop ref.PropSizes) evid.Outcome {
 	if d := sameCmds(got, c.Cmds); d != "" {
 		return evid.Fail("stream %x (uplink=%v, %s) decodes differently: %s", enc, c.Uplink, c.Where, d)
 	}
+	// the decoded frame answers with another command sequence in the same field: the empty one (nil / empty slice),
+	// then the first command alone - each must travel as exactly that sequence
+	if len(c.Cmds) > 0 {
+		for v, repl := range [][]lorawan.Payload{nil, {}, pls[:1]} {
+			wantF := f
+			var wantBytes []byte
+			if v == 2 {
+				wantBytes, _ = ref.EncodeCmds(c.Uplink, c.Cmds[:1])
+			}
+			if c.Where == "fopts" {
+				m.FHDR.FOpts, wantF.FOpts = repl, wantBytes
+			} else {
+				m.FRMPayload, wantF.FRM = repl, wantBytes
+			}
+			out, err := q.MarshalBinary()
+			if err != nil || !bytes.Equal(out, wantF.Encode()) {
+				return evid.Fail("a frame decoded with the %d-command stream %x in its %s, whose %s was then replaced by a sequence of %d commands (variant %d: nil / empty / first command), encodes to %x (err %v); the model frame is %x", len(c.Cmds), enc, c.Where, c.Where, len(repl), v, out, err, wantF.Encode())
+			}
+		}
+	}
 	return evid.Outcome{NonTrivial: len(c.Cmds) >= 3, Class: fmt.Sprintf("%s/up=%v/n%s", c.Where, c.Uplink, nb(len(c.Cmds)))}
 }
 
@@ -596,7 +616,7 @@ func TestProp(t *testing.T) {
 		300000, 10000000, genVal, checkVal)
 
 	evid.Rapid(r, t, "streams",
-		"rapid: command sequences per direction built to a drawn byte budget (FOpts <= 15, port 0 <= 242; a quarter exactly at the limit), including payload-less CIDs and up to 3 CIDs unknown in that direction; each command encodes to 1 + registered size (its payload alone to the same bytes); all returned slices are held until every command is encoded, then joined: the concatenation equals the model framing and decodes (DecodeFOptsToMACCommands / DecodeFRMPayloadToMACCommands) to exactly the sequence. Non-trivial: >= 3 commands.",
+		"rapid: command sequences per direction built to a drawn byte budget (FOpts <= 15, port 0 <= 242; a quarter exactly at the limit), including payload-less CIDs and up to 3 CIDs unknown in that direction; each command encodes to 1 + registered size (its payload alone to the same bytes); all returned slices are held until every command is encoded, then joined: the concatenation equals the model framing and decodes (DecodeFOptsToMACCommands / DecodeFRMPayloadToMACCommands) to exactly the sequence; the decoded frame's field is then replaced by the empty sequence (nil, empty slice) and by the first command alone and must encode as the model frame with that content. Non-trivial: >= 3 commands.",
 		50000, 3000000, genStream, checkStream)
 
 	evid.Rapid(r, t, "streams-with-unencodable-command",
